@@ -212,6 +212,22 @@ def run(chk):
             res = oqupy.state_gradient(system=s, initial_state=r, target_derivative=target, process_tensors=[pt],
                                        parameters=np.real(params2d), progress_type="silent")
             return np.array(res["gradient"])
+        def bathcorr(table, r, h):
+            # the caller's table of system correlations (with NaN markers for entries outside the time ordering)
+            from oqupy.bath_dynamics import TwoTimeBathCorrelations
+            pt = oqupy.process_tensor.SimpleProcessTensor(2, dt=0.1)
+            for k in range(4):
+                pt.set_mpo_tensor(k, np.ones((1, 1, 4), dtype=complex))
+            for k in range(5):
+                pt.set_cap_tensor(k, np.ones(1, dtype=complex))
+            cc = oqupy.PowerLawSD(alpha=0.1, zeta=1, cutoff=3.0, cutoff_type="exponential", temperature=0.3)
+            tb = TwoTimeBathCorrelations(oqupy.System(h), oqupy.Bath(SZ, cc), pt, initial_state=r, system_correlations=table)
+            occ = tb.occupation(1.3, progress_type="silent")[1]
+            c1 = tb.correlation(1.3, 0.2, 2.1, 0.4, dagg=(1, 0), progress_type="silent")
+            return np.append(np.array(occ, dtype=complex), c1)
+        tab = np.array([[1 + 0.1j * (i - j) if j >= i else np.nan + 1j * np.nan for j in range(4)] for i in range(4)], dtype=complex)
+        yield "TwoTimeBathCorrelations", bathcorr, (tab, rho, H)
+
         # a target that is not symmetric (its transpose is a different matrix)
         yield "state_gradient", grad, (rho, rho.T.copy() + 0.3j * SX @ SZ, np.array([[0.1, 0.2], [0.3, 0.4], [0.5, 0.6], [0.7, 0.8]], dtype=complex))
 
@@ -238,7 +254,7 @@ def run(chk):
                 except Exception as ex:
                     chk.fail("layout-rejected", f"{name}: argument {pos} passed as a '{lay}' array is rejected: {ex!r}", info)
                     continue
-                if any(not np.array_equal(a, b) for a, b in zip(arrs, before)):
+                if any(not np.array_equal(a, b, equal_nan=True) for a, b in zip(arrs, before)):
                     chk.fail("input-mutated", f"{name}: the caller's array (argument {pos}, layout '{lay}') was modified", info)
                 if res.shape != base.shape or not np.allclose(res, base, rtol=0, atol=1e-9, equal_nan=True):
                     chk.fail("layout-dependent", f"{name}: result depends on the memory layout of argument {pos} ('{lay}')", info)
